@@ -28,7 +28,7 @@ fn bx<T>(x: T) -> Box<T> {
 }
 
 enum Got {
-    Ran(Vec<Vec<u64>>, u32),
+    Ran(Vec<Vec<u64>>),
     Rejected(String),
     Panic(String, String),
     Other(String),
@@ -36,7 +36,7 @@ enum Got {
 
 fn got(e: Exec) -> Got {
     match e {
-        Exec::Ran(r) => Got::Ran(r.samples, r.n_out),
+        Exec::Ran(r) => Got::Ran(r.samples),
         Exec::Rejected(d) => Got::Rejected(d.iter().map(|x| x.message.clone()).collect::<Vec<_>>().join(" | ")),
         Exec::Panic(stage, p) => Got::Panic(format!("{}:{}", if stage.starts_with("dsp@") { "dsp" } else { stage.as_str() }, p.signature()), format!("{stage}: {}", p.describe())),
         Exec::NoIo => Got::Other("no dsp I/O information".into()),
@@ -83,7 +83,7 @@ fn judge(staged: &str, alt: Option<&str>, expanded: &str, n: u64, ctx: &str, exp
     }
     // the hand expansion defines the expected meaning: if it has none, the case is outside the domain
     let e = match vm(expanded, n) {
-        Got::Ran(s, _) => s,
+        Got::Ran(s) => s,
         Got::Rejected(d) => {
             o.discard = Some(format!("expansion-rejected:{}", crate::engine::panics::normalise(&d)));
             return o;
@@ -99,7 +99,7 @@ fn judge(staged: &str, alt: Option<&str>, expanded: &str, n: u64, ctx: &str, exp
     };
     o.varying = e.iter().any(|s| *s != e[0]);
     let s = match vm(staged, n) {
-        Got::Ran(s, _) => s,
+        Got::Ran(s) => s,
         Got::Rejected(d) => fail!("staged-rejected", "the hand expansion compiles and runs, the staged program is rejected: {d}"),
         Got::Panic(sig, d) => fail!(format!("panic:{sig}"), "the hand expansion runs, the staged program panics at {d}"),
         Got::Other(w) => fail!("staged-unusable", "the hand expansion runs, the staged program does not: {w}"),
@@ -116,7 +116,7 @@ fn judge(staged: &str, alt: Option<&str>, expanded: &str, n: u64, ctx: &str, exp
     }
     if let Some(a) = alt {
         match vm(a, n) {
-            Got::Ran(sa, _) => {
+            Got::Ran(sa) => {
                 if let Some(d) = first_diff(&sa, &s) {
                     fail!("bang-vs-splice-differ", "f!(args) vs $(f(args)) (VM): {d}");
                 }
@@ -129,10 +129,10 @@ fn judge(staged: &str, alt: Option<&str>, expanded: &str, n: u64, ctx: &str, exp
     if wasm_leg {
         // same backend on both sides, so backend defects cancel; anything the WASM backend cannot do
         // with the plain expansion is not judged
-        if let Got::Ran(we, _) = wasm(expanded, n) {
+        if let Got::Ran(we) = wasm(expanded, n) {
             o.wasm_compared = true;
             match wasm(staged, n) {
-                Got::Ran(ws, _) => {
+                Got::Ran(ws) => {
                     if let Some(d) = first_diff(&ws, &we) {
                         fail!(format!("wasm-output-differs:{ctx}"), "staged program vs hand expansion (WASM): {d}");
                     }
